@@ -36,11 +36,15 @@ type Cluster struct {
 	KeysOf func(argv [][]byte) ([][]byte, bool)
 	// Events records topology changes and redirections in global order.
 	Events []string
+
+	crashAt   int64 // crash the whole cluster once this many requests were processed (<0: never)
+	processed atomic.Int64
+	crashed   atomic.Bool
 }
 
 // New creates len(addrs) nodes; layout maps a slot to its owning node index.
 func New(addrs []string, layout func(slot int) int) *Cluster {
-	c := &Cluster{Addrs: addrs, migrating: map[int]int{}}
+	c := &Cluster{Addrs: addrs, migrating: map[int]int{}, crashAt: -1}
 	for slot := 0; slot < 16384; slot++ {
 		c.owner[slot] = layout(slot)
 	}
@@ -53,9 +57,53 @@ func New(addrs []string, layout func(slot int) int) *Cluster {
 		n.Extra = func(s *redisd.Server, cs *redisd.ConnState, argv [][]byte) []byte { return c.extra(i, s, cs, argv) }
 		n.Stamp = func() int64 { return c.global.Add(1) }
 		n.ClusterMode = true
+		n.PlanRef().OnRequest = func(r *redisd.Req) { c.onRequest(n) }
 		c.Nodes = append(c.Nodes, n)
 	}
 	return c
+}
+
+// onRequest runs (node lock held) before a request is processed: it implements the
+// cluster-wide crash point.
+func (c *Cluster) onRequest(n *redisd.Server) {
+	if c.crashed.Load() {
+		n.CrashLocked()
+		return
+	}
+	if c.crashAt >= 0 && c.processed.Load() >= c.crashAt {
+		c.crashed.Store(true)
+		n.CrashLocked()
+		return
+	}
+	c.processed.Add(1)
+}
+
+// Processed is the number of requests the cluster has processed so far.
+func (c *Cluster) Processed() int64 { return c.processed.Load() }
+
+// SetCrashAfter makes every node fail all connections once k requests were processed
+// cluster-wide (the tool died: the cluster has seen exactly a prefix of its requests).
+func (c *Cluster) SetCrashAfter(k int64) { c.crashAt = k }
+
+// Crashed reports whether the crash point was reached; EnforceCrash then takes the
+// remaining nodes down too (call it after every harness event).
+func (c *Cluster) Crashed() bool { return c.crashed.Load() }
+
+func (c *Cluster) EnforceCrash() {
+	if c.crashed.Load() {
+		for _, n := range c.Nodes {
+			n.Crash()
+		}
+	}
+}
+
+// Revive lets all nodes accept connections again (data is kept).
+func (c *Cluster) Revive() {
+	c.crashed.Store(false)
+	c.crashAt = -1
+	for _, n := range c.Nodes {
+		n.Revive()
+	}
 }
 
 // EvenLayout splits the slot space into n contiguous ranges.
